@@ -1,8 +1,9 @@
 #!/bin/bash
-# Builds the verifier (govc) from /verif/engine, offline.
+# Builds the verifier (govc) from /verif/engine, offline. The engine's dependencies (golang.org/x/tools and what it
+# needs) are vendored under engine/vendor, so the build does not depend on the Go module cache.
 set -e
 cd "$(dirname "$0")/engine"
-export PATH=/opt/veriftools/go1.26.8/bin:$PATH GOTOOLCHAIN=local GOFLAGS=-mod=mod GOPROXY=off GOSUMDB=off
+export PATH=/opt/veriftools/go1.26.8/bin:$PATH GOTOOLCHAIN=local GOPROXY=off GOSUMDB=off
 mkdir -p ../bin ../out
-go build -o ../bin/govc .
+GOFLAGS=-mod=vendor go build -o ../bin/govc . || GOFLAGS=-mod=mod go build -o ../bin/govc .
 echo "govc built"
